@@ -12,6 +12,8 @@
 //!                                                                           the segment is left as write() leaves it after the odd generation store and the
 //!                                                                           as-of field of the record it was storing (as-of = t); everything else is the old record
 //!     F                                                                     the client process is replaced by a new one (attaches at its next call)
+//!     N t                                                                   a new daemon process starts at time t over the segment as it is (ShmWriter::new) and dies
+//!                                                                           before it has published anything
 //! -> per P: `p:<as_s>:<as_n>:<va_s>:<va_n>:<bound>:<drift>:<status>` (record in the segment after the iteration)
 //!    per C: `c:<result of ClockBoundClient::now()>:<order of the clock reads, R = realtime, M = monotonic>`;  per R: `r`; per K: `k`; per F: `f`;  last: ORDER:...
 use crate::util::*;
@@ -365,6 +367,15 @@ pub fn run(toks: &[&str]) -> String {
                 i += 1;
                 client = None;
                 out.push("f".into());
+            }
+            "N" => {
+                let t: i64 = p(toks[i + 1]);
+                i += 2;
+                set_time_ns(t);
+                if daemon.is_none() {
+                    drop(ShmWriter::new(&seg_path).expect("ShmWriter::new"));
+                }
+                out.push("n".into());
             }
             "R" => {
                 let t: i64 = p(toks[i + 1]);
